@@ -267,6 +267,23 @@ fn gen_random(t: &mut Tape, tier: Tier) -> (Vec<SubHunk>, Cfg) {
     }
     cfg.set("max-line-distance", t.ps(&["0.6", "0", "1", "0.2", "0.9"]));
     cfg.set("word-diff-regex", t.ps(&[r"\w+", r"\S+", r"[a-z]+|\d+", "."]));
+    // `--line-buffer-size N`: a run of up to N removed lines followed by up to N+1 added lines is still
+    // painted as one sub-hunk (the buffers are flushed only when a line arrives while one of them holds
+    // more than N), so every rule applies to it unchanged; runs are built at and just below that
+    // boundary.  (Drawn from a fork so that the rest of the case does not move.)
+    let mut lb = t.fork(6);
+    let buf: Option<usize> = if lb.chance(1, 5) { Some(lb.range(1, 6)) } else { None };
+    if let Some(n) = buf {
+        cfg.set("line-buffer-size", &n.to_string());
+        if lb.chance(2, 3) {
+            cfg.set("max-line-distance", "1");
+        }
+    }
+    // (the default limit, 32: one long run now and then)
+    let long_run = buf.is_none() && lb.chance(1, 30);
+    if long_run {
+        cfg.set("max-line-distance", "1");
+    }
     let o = TextOpts { allow_markerlike: false, allow_long: tier == Tier::Thorough, allow_trailing_ws: true, ..TextOpts::all() };
     let n = t.range(1, 5);
     let mut subs = Vec::new();
@@ -298,6 +315,11 @@ fn gen_random(t: &mut Tape, tier: Tier) -> (Vec<SubHunk>, Cfg) {
         let m = t.weighted(&[1, 4, 3, 2, 1, 1, 1]);
         let p = t.weighted(&[1, 4, 3, 2, 1, 1, 1]);
         let (m, p) = if m + p == 0 { (1, 1) } else { (m, p) };
+        let (m, p) = match buf {
+            Some(n) => (if lb.coin() { n } else { m.min(n) }, if lb.chance(1, 3) { n + 1 } else { p.min(n + 1) }),
+            None if long_run && subs.is_empty() => (32 - lb.below(2), lb.range(1, 33)),
+            None => (m, p),
+        };
         let minus: Vec<String> = (0..m).map(|_| text::content(t, &o)).collect();
         let mut plus: Vec<String> = Vec::new();
         for i in 0..p {
